@@ -447,3 +447,60 @@ def c13_tract(c, k, channel):
         t.config = cfg_text(c)
     t.parse(**k)
     return snapshot_tract(t) != snapshot_tract(ref), f'got {snapshot_tract(t)} expected {snapshot_tract(ref)}'
+
+
+# ------------------------------------------------------------------ C14
+@replay('c14_desc')
+def c14_desc(cfg, ops):
+    import pytrs
+    from props.c14_ref import TEXT, snap_desc, apply_desc, commits, reference_desc
+    make = lambda: pytrs.PLSSDesc(TEXT, config=cfg)
+    d = make()
+    hist = []
+    for op in ops:
+        op = tuple(op)
+        before = snap_desc(d)
+        apply_desc(d, op)
+        hist.append(op)
+        if not commits(op) and snap_desc(d) != before:
+            return True, f'operation {op} with commit=False changed the object'
+    a, b = snap_desc(d), snap_desc(reference_desc(make, hist))
+    if a == b:
+        return False, 'equivalent'
+    diff = [(i, x, y) for i, (x, y) in enumerate(zip(a, b)) if x != y]
+    return True, f'after {hist}: differs from reference at fields {[i for i, _, _ in diff]}: {str(diff)[:900]}'
+
+
+@replay('c14_tract')
+def c14_tract(cfg, ops):
+    import pytrs
+    from props.c14_ref import DESC, snap_tract, apply_tract, tract_commits, reference_tract
+    make = lambda: pytrs.Tract(DESC, trs='154n97w14', config=cfg)
+    t = make()
+    hist = []
+    for op in ops:
+        op = tuple(op)
+        before = snap_tract(t)
+        apply_tract(t, op)
+        hist.append(op)
+        if not tract_commits(op) and snap_tract(t) != before:
+            return True, f'operation {op} with commit=False changed the object'
+    a, b = snap_tract(t), snap_tract(reference_tract(make, hist))
+    if a == b:
+        return False, 'equivalent'
+    diff = [(i, x, y) for i, (x, y) in enumerate(zip(a, b)) if x != y]
+    return True, f'after {hist}: differs from reference: {str(diff)[:900]}'
+
+
+# ------------------------------------------------------------------ C15
+@replay('c15_history')
+def c15_history(pi, ops):
+    from props.c15_ref import observe, apply_op, OPS
+    base = observe(pi)           # fresh interpreter, empty history
+    for name in ops:
+        apply_op(OPS.index(name), pi)
+    got = observe(pi)
+    if got == base:
+        return False, 'same as the fresh-interpreter baseline'
+    diff = [(i, x, y) for i, (x, y) in enumerate(zip(got, base)) if x != y]
+    return True, f'probe #{pi} after {ops}: {str(diff)[:900]}'
